@@ -85,6 +85,10 @@ Proof.
 Qed.
 
 (* ---- the operator table (generated from OP_TO_OPNAME) agrees with Sugar's names ---- *)
+(* a name that can head a constraint: one atom, printable, not a declaration keyword *)
+Definition good_name (n : string) : Prop :=
+  is_atom n /\ all_chars printc n = true /\ String.eqb n "int" = false /\ String.eqb n "bool" = false.
+
 Lemma all_some_length {A} (l : list (option A)) r : all_some l = Some r -> List.length r = List.length l.
 Proof.
   revert r; induction l as [|[a|] l IH]; simpl; intros r H; try discriminate.
@@ -99,12 +103,12 @@ Section Table.
     destruct l as [|[?|?] [|[?|?] [|[?|?] [|[?|?] ?]]]]; try reflexivity.
 
   Lemma opname_agrees : forall o n, opname o = Some n ->
-    is_atom n /\
+    good_name n /\
     forall vs, arity_ok o (List.length vs) = true -> sugar_apply gsem n vs = eval_node gsem o vs.
   Proof.
     intros o n H.
     destruct o; vm_compute in H; try discriminate; injection H as <-;
-      (split; [split; [vm_compute; reflexivity | discriminate] |]);
+      (split; [split; [split; [vm_compute; reflexivity | discriminate] | repeat split; vm_compute; reflexivity] |]);
       intros vs Ha; unfold eval_node, sugar_apply, eval_iop, eval_bop; simpl;
       try reflexivity.
     - (* NEG *)
@@ -141,7 +145,7 @@ Lemma go_mapM : forall args,
      end) args = mapM print_expr args.
 Proof. induction args as [|a r IH]; simpl; [reflexivity|]. rewrite IH. reflexivity. Qed.
 
-Local Arguments opname : simpl never.
+Opaque opname.
 
 Lemma print_bnode o args n :
   o <> BOOL_CONSTANT -> o <> INT_CONSTANT -> opname o = Some n ->
@@ -156,24 +160,49 @@ Proof.
   intros H1 H2 Hn. destruct o; try congruence; simpl; rewrite Hn, go_mapM; reflexivity.
 Qed.
 
+Transparent opname.
+
 Lemma sem_node gsem rho f args :
   sugar_sem gsem rho (SList (SAtom f :: args)) = sugar_apply gsem f (map (sugar_sem gsem rho) args).
 Proof. reflexivity. Qed.
+
+(* shape of an expression that is a constraint, not a declaration *)
+Definition cshape (x : sexp) : bool :=
+  match x with
+  | SAtom _ => true
+  | SList (SAtom k :: _) => negb (String.eqb k "int") && negb (String.eqb k "bool")
+  | SList _ => false
+  end.
+
+Lemma join_printc parts :
+  Forall (fun p => all_chars printc p = true) parts -> all_chars printc (join " " parts) = true.
+Proof.
+  induction 1 as [|p r Hp Hr IH]; [reflexivity|]. simpl. destruct r; [assumption|].
+  rewrite !all_chars_app, Hp. simpl in *. exact IH.
+Qed.
+Lemma node_text_printc n parts :
+  all_chars printc n = true -> Forall (fun p => all_chars printc p = true) parts ->
+  all_chars printc (node_text n parts) = true.
+Proof.
+  intros Hn Hp. unfold node_text. rewrite !all_chars_app, Hn, (join_printc _ Hp). reflexivity.
+Qed.
 
 Section Denote.
   Variable gsem : op -> list (option value) -> option bool.
 
   Definition denotes (e : expr) : Prop :=
-    exists s x, print_expr e = Ok s /\ reads_as s x /\
+    exists s x, print_expr e = Ok s /\ reads_as s x /\ all_chars printc s = true /\ cshape x = true /\
       forall en, sugar_sem gsem (name_env en) x = eval gsem en e.
 
   Lemma args_denote args : Forall denotes args ->
     exists parts xs, mapM print_expr args = Ok parts /\ Forall2 reads_as parts xs /\
+      Forall (fun p => all_chars printc p = true) parts /\
       forall en, map (sugar_sem gsem (name_env en)) xs = map (eval gsem en) args.
   Proof.
-    induction 1 as [|a r [s [x [Hp [Hr Hs]]]] _ [parts [xs [Hm [Hf Hv]]]]].
+    induction 1 as [|a r [s [x [Hp [Hr [Hc [_ Hs]]]]]] _ [parts [xs [Hm [Hf [Hpc Hv]]]]]].
     - exists [], []. repeat split; constructor.
     - exists (s :: parts), (x :: xs). simpl. rewrite Hp, Hm. simpl. repeat split.
+      + constructor; assumption.
       + constructor; assumption.
       + intros en. rewrite Hs, Hv. reflexivity.
   Qed.
@@ -182,15 +211,17 @@ Section Denote.
     (forall o args, print_expr (mk o args) = print_expr (BNode o args)) ->
     o <> BOOL_CONSTANT -> o <> INT_CONSTANT -> opname o = Some n ->
     arity_ok o (List.length args) = true -> Forall denotes args ->
-    exists s x, print_expr (mk o args) = Ok s /\ reads_as s x /\
+    exists s x, print_expr (mk o args) = Ok s /\ reads_as s x /\ all_chars printc s = true /\ cshape x = true /\
       forall en, sugar_sem gsem (name_env en) x = eval_node gsem o (map (eval gsem en) args).
   Proof.
     intros Hmk H1 H2 Hn Ha Hargs.
-    destruct (args_denote _ Hargs) as [parts [xs [Hm [Hf Hv]]]].
-    destruct (opname_agrees gsem o n Hn) as [Hat Hsem].
-    exists (node_text n parts), (SList (SAtom n :: xs)). split; [|split].
+    destruct (args_denote _ Hargs) as [parts [xs [Hm [Hf [Hpc Hv]]]]].
+    destruct (opname_agrees gsem o n Hn) as [[Hat [Hnp [Hni Hnb]]] Hsem].
+    exists (node_text n parts), (SList (SAtom n :: xs)). repeat split.
     - rewrite Hmk, (print_bnode o args n H1 H2 Hn), Hm. reflexivity.
     - apply reads_node; assumption.
+    - apply node_text_printc; assumption.
+    - simpl. rewrite Hni, Hnb. reflexivity.
     - intros en. rewrite sem_node, Hv. apply Hsem. rewrite map_length. exact Ha.
   Qed.
 
@@ -212,9 +243,22 @@ Section Denote.
 
   Lemma bool_denotes b : denotes (PyBool b).
   Proof.
-    exists (bool_text b), (SAtom (bool_text b)). split; [reflexivity|split].
+    exists (bool_text b), (SAtom (bool_text b)). repeat split.
     - destruct b; apply reads_atom; [apply atom_true | apply atom_false].
+    - destruct b; reflexivity.
     - intros en; destruct b; reflexivity.
+  Qed.
+  Lemma int_denotes z : denotes (PyInt z).
+  Proof.
+    exists (pz z), (SAtom (pz z)). repeat split.
+    - apply reads_atom, pz_atom.
+    - apply (all_chars_impl tokc printc _ tokc_printc), pz_tokc.
+    - intros en. apply sem_int.
+  Qed.
+  Lemma name_printc (c : ascii) i : tokc c = true -> all_chars printc (String c (pn i)) = true.
+  Proof.
+    intros Hc. simpl. rewrite (tokc_printc _ Hc). simpl.
+    apply (all_chars_impl tokc printc _ tokc_printc), pz_tokc.
   Qed.
 
   Ltac name_of_op o n E :=
@@ -225,69 +269,67 @@ Section Denote.
   Proof.
     induction e as [b|z| |i|i lo hi|o args IH|o args IH] using expr_nested_ind; intros Hok.
     - apply bool_denotes.
-    - exists (pz z), (SAtom (pz z)). split; [reflexivity|split].
-      + apply reads_atom, pz_atom.
-      + intros en. apply sem_int.
-    - exists "*", (SAtom "*"). split; [reflexivity|split].
-      + apply reads_atom, atom_star.
-      + intros en. reflexivity.
-    - exists ("b" ++ pn i), (SAtom ("b" ++ pn i)). split; [reflexivity|split].
+    - apply int_denotes.
+    - exists "*", (SAtom "*"). repeat split.
+      apply reads_atom, atom_star.
+    - exists ("b" ++ pn i), (SAtom ("b" ++ pn i)). repeat split.
       + apply reads_atom. apply (name_atom "b"). reflexivity.
+      + apply (name_printc "b"). reflexivity.
       + intros en. apply sem_bvar.
-    - exists ("i" ++ pn i), (SAtom ("i" ++ pn i)). split; [reflexivity|split].
+    - exists ("i" ++ pn i), (SAtom ("i" ++ pn i)). repeat split.
       + apply reads_atom. apply (name_atom "i"). reflexivity.
+      + apply (name_printc "i"). reflexivity.
       + intros en. apply sem_ivar.
     - (* BoolExpr *)
-      unfold okarg in Hok. simpl in Hok. rewrite orb_false_r in Hok.
+      unfold okarg in Hok. simpl in Hok. rewrite !orb_false_r in Hok.
       destruct o; simpl in Hok; try discriminate.
       + (* BOOL_CONSTANT *)
         destruct args as [|[b| | | | | |] [|? ?]]; try discriminate.
-        destruct (bool_denotes b) as [s [x [Hp [Hr Hs]]]].
-        exists s, x. split; [exact Hp|split; [exact Hr|]]. intros en. rewrite Hs. reflexivity.
+        destruct (bool_denotes b) as [s [x [Hp [Hr [Hc [Hsh Hs]]]]]].
+        exists s, x. repeat split; auto; intros en; rewrite Hs; reflexivity.
       + name_of_op EQ n E. apply andb_true_iff in Hok as [_ Hok].
-        apply (node_denotes BNode EQ args n); auto; try discriminate. eapply forallb_okarg; eauto using okarg_f.
+        apply (node_denotes BNode EQ args n); auto; try discriminate. apply (forallb_okarg (wts false)); auto using okarg_f.
       + name_of_op NE n E. apply andb_true_iff in Hok as [_ Hok].
-        apply (node_denotes BNode NE args n); auto; try discriminate. eapply forallb_okarg; eauto using okarg_f.
+        apply (node_denotes BNode NE args n); auto; try discriminate. apply (forallb_okarg (wts false)); auto using okarg_f.
       + name_of_op LE n E. apply andb_true_iff in Hok as [_ Hok].
-        apply (node_denotes BNode LE args n); auto; try discriminate. eapply forallb_okarg; eauto using okarg_f.
+        apply (node_denotes BNode LE args n); auto; try discriminate. apply (forallb_okarg (wts false)); auto using okarg_f.
       + name_of_op LT n E. apply andb_true_iff in Hok as [_ Hok].
-        apply (node_denotes BNode LT args n); auto; try discriminate. eapply forallb_okarg; eauto using okarg_f.
+        apply (node_denotes BNode LT args n); auto; try discriminate. apply (forallb_okarg (wts false)); auto using okarg_f.
       + name_of_op GE n E. apply andb_true_iff in Hok as [_ Hok].
-        apply (node_denotes BNode GE args n); auto; try discriminate. eapply forallb_okarg; eauto using okarg_f.
+        apply (node_denotes BNode GE args n); auto; try discriminate. apply (forallb_okarg (wts false)); auto using okarg_f.
       + name_of_op GT n E. apply andb_true_iff in Hok as [_ Hok].
-        apply (node_denotes BNode GT args n); auto; try discriminate. eapply forallb_okarg; eauto using okarg_f.
+        apply (node_denotes BNode GT args n); auto; try discriminate. apply (forallb_okarg (wts false)); auto using okarg_f.
       + name_of_op NOT n E. apply andb_true_iff in Hok as [_ Hok].
-        apply (node_denotes BNode NOT args n); auto; try discriminate. eapply forallb_okarg; eauto using okarg_t.
+        apply (node_denotes BNode NOT args n); auto; try discriminate. apply (forallb_okarg (wts true)); auto using okarg_t.
       + name_of_op AND n E.
-        apply (node_denotes BNode AND args n); auto; try discriminate. eapply forallb_okarg; eauto using okarg_t.
+        apply (node_denotes BNode AND args n); auto; try discriminate. apply (forallb_okarg (wts true)); auto using okarg_t.
       + name_of_op OR n E.
-        apply (node_denotes BNode OR args n); auto; try discriminate. eapply forallb_okarg; eauto using okarg_t.
+        apply (node_denotes BNode OR args n); auto; try discriminate. apply (forallb_okarg (wts true)); auto using okarg_t.
       + name_of_op IFF n E. apply andb_true_iff in Hok as [_ Hok].
-        apply (node_denotes BNode IFF args n); auto; try discriminate. eapply forallb_okarg; eauto using okarg_t.
+        apply (node_denotes BNode IFF args n); auto; try discriminate. apply (forallb_okarg (wts true)); auto using okarg_t.
       + name_of_op XOR n E. apply andb_true_iff in Hok as [_ Hok].
-        apply (node_denotes BNode XOR args n); auto; try discriminate. eapply forallb_okarg; eauto using okarg_t.
+        apply (node_denotes BNode XOR args n); auto; try discriminate. apply (forallb_okarg (wts true)); auto using okarg_t.
       + name_of_op IMP n E. apply andb_true_iff in Hok as [_ Hok].
-        apply (node_denotes BNode IMP args n); auto; try discriminate. eapply forallb_okarg; eauto using okarg_t.
+        apply (node_denotes BNode IMP args n); auto; try discriminate. apply (forallb_okarg (wts true)); auto using okarg_t.
       + name_of_op ALLDIFF n E.
-        apply (node_denotes BNode ALLDIFF args n); auto; try discriminate. eapply forallb_okarg; eauto using okarg_f.
+        apply (node_denotes BNode ALLDIFF args n); auto; try discriminate. apply (forallb_okarg (wts false)); auto using okarg_f.
       + name_of_op G_AVC n E.
-        apply (node_denotes BNode G_AVC args n); auto; try discriminate. eapply forallb_okarg; eauto.
+        apply (node_denotes BNode G_AVC args n); auto; try discriminate. apply (forallb_okarg okarg); auto.
       + name_of_op G_DIV n E.
-        apply (node_denotes BNode G_DIV args n); auto; try discriminate. eapply forallb_okarg; eauto.
+        apply (node_denotes BNode G_DIV args n); auto; try discriminate. apply (forallb_okarg okarg); auto.
     - (* IntExpr *)
-      unfold okarg in Hok. simpl in Hok. rewrite orb_false_r in Hok.
+      unfold okarg in Hok. simpl in Hok. rewrite !orb_false_r in Hok.
       destruct o; simpl in Hok; try discriminate.
       + (* INT_CONSTANT *)
         destruct args as [|[ |z| | | | |] [|? ?]]; try discriminate.
-        exists (pz z), (SAtom (pz z)). split; [reflexivity|split].
-        * apply reads_atom, pz_atom.
-        * intros en. rewrite sem_int. reflexivity.
+        destruct (int_denotes z) as [s [x [Hp [Hr [Hc [Hsh Hs]]]]]].
+        exists s, x. repeat split; auto; intros en; rewrite Hs; reflexivity.
       + name_of_op NEG n E. apply andb_true_iff in Hok as [Hl Hok].
-        apply (node_denotes INode NEG args n); auto; try discriminate. eapply forallb_okarg; eauto using okarg_f.
+        apply (node_denotes INode NEG args n); auto; try discriminate. apply (forallb_okarg (wts false)); auto using okarg_f.
       + name_of_op ADD n E. apply andb_true_iff in Hok as [Hl Hok].
-        apply (node_denotes INode ADD args n); auto; try discriminate. eapply forallb_okarg; eauto using okarg_f.
+        apply (node_denotes INode ADD args n); auto; try discriminate. apply (forallb_okarg (wts false)); auto using okarg_f.
       + name_of_op SUB n E. apply andb_true_iff in Hok as [Hl Hok].
-        apply (node_denotes INode SUB args n); auto; try discriminate. eapply forallb_okarg; eauto using okarg_f.
+        apply (node_denotes INode SUB args n); auto; try discriminate. apply (forallb_okarg (wts false)); auto using okarg_f.
       + name_of_op IF n E.
         destruct args as [|c [|t [|f [|? ?]]]]; try discriminate.
         apply andb_true_iff in Hok as [Hok Hf]. apply andb_true_iff in Hok as [Hc Ht].
@@ -296,4 +338,10 @@ Section Denote.
         inversion IH2 as [|? ? IHf _]; subst.
         repeat constructor; auto using okarg_t, okarg_f.
   Qed.
+
+  (* a one-operand SUB is printed as Sugar's negation: outside [wts] for a reason *)
+  Lemma sub1_misprinted : forall en,
+    exists s x, print_expr (INode SUB [PyInt 1]) = Ok s /\ sx_parse s = Some x /\
+      sugar_sem gsem (name_env en) x = Some (VI (-1)) /\ eval gsem en (INode SUB [PyInt 1]) = Some (VI 1).
+  Proof. intros en. eexists _, _. repeat split; vm_compute; reflexivity. Qed.
 End Denote.
